@@ -739,6 +739,7 @@ impl OrdWorld {
     /// the caller can observe (handles are reported by what they designate).
     fn exec_op(c: &mut Box<dyn OColl>, op: &Op, ver: u32, n_model: usize, walk_start: i32) -> Vec<Option<Seen>> {
         const DISAGREE: Option<Seen> = Some((i32::MIN, i32::MIN, u32::MAX));
+        const NO_HANDLE: Option<Seen> = Some((i32::MIN, i32::MIN, u32::MAX - 1));
         match *op {
             Op::OIns { k } => {
                 c.insert(k, ver);
@@ -783,6 +784,11 @@ impl OrdWorld {
                     return vec![];
                 }
                 let h = c.first(k);
+                if h == EMPTY_REF {
+                    // no handle for a stored key: a wrong answer of the handle query, and the
+                    // sentinel must not be passed on (that would leave the contract)
+                    return vec![NO_HANDLE];
+                }
                 let nh = if matches!(op, Op::ONext { .. }) { c.next(h) } else { c.prev(h) };
                 vec![if nh == EMPTY_REF { None } else { Some(c.read(nh)) }]
             }
